@@ -6,7 +6,7 @@ stored count as a polynomial in r (or a constant) together with the path's
 constraints, which is compared with min(NMAX, ALPHA*r^BETA).  Any unsigned
 wrap on the data path is reported."""
 from ..common import Report, finish
-from ..facts import AnalysisBroken, walk
+from ..facts import AnalysisBroken, walk, fn_body
 from ..terms import C, ZERO, INF, short, Dom, is_const, lin_of, Lin
 from ..engine import run_entry, mk_obj, new_state
 from ..absint import Val
@@ -71,6 +71,7 @@ def run(tier):
     rep.rule('R13.3', 'count stays within [ALPHA, NMAX] (inductive: constructors store ALPHA, update keeps the range)', floor=3)
     rep.rule('R13.4', 'band_choose_hello_time: interval = ceil(TXC*Ni*20/(3*GAMMA)) exactly (both bounds), never below the frame-time floor', floor=2)
     rep.rule('R13.6', 'tick: whenever a block ends (statistics updated) the next Hello is re-scheduled from the updated count: deadline - now >= ceil(80*Ni_new/30)', floor=2)
+    rep.rule('R13.7', 'every other function that ends a block (reaches band_update_stats) re-schedules the next Hello from the updated count before it returns', floor=1)
     rep.rule('R13.5', 'who-may-write Ni: only the constructor, band_init_stats and band_update_stats', floor=3)
 
     r = ('sym', 'r', 0, (1 << 32) - 1)
@@ -187,6 +188,7 @@ def run(tier):
                   node=cnode, function='band_choose_hello_time')
 
     tick_reschedule(rep, prog, ix, brec, B)
+    block_enders(rep, prog, ix, brec, B)
 
     # ---- who may write Ni (all parsed units of this configuration)
     writers = set()
@@ -210,6 +212,127 @@ def run(tier):
                   'Each path yields the stored count as a polynomial in r with its constraints; identity with ALPHA*r^BETA and the clamp are decided by '
                   'polynomial normal form, intervals and linear entailment; monotonicity follows from the exact formula (min of a monotone polynomial) and the exact ceil.',
                   'abstract interpretation with polynomial terms + interval/linear entailment; wrap detection', exhaustive=True)
+
+
+def block_enders(rep, prog, ix, brec, B):
+    """R13.7 - the tick is not the only code that could end a block.  Every core function from which band_update_stats is
+    reachable (other than the tick, decided by R13.6, and the updater itself) is interpreted with a symbolic RepeatBand block;
+    on each of its paths that ran the update, the Hello deadline it leaves must respect the count it has just stored.
+    Functions that never end a block are instances too (they pass), so the rule cannot go vacuous unnoticed."""
+    from ..facts import fn_params
+    fnf = 'lltdResponder/lltdAutomata.c'
+    UPD, CHOOSE = 'band_update_stats', 'band_choose_hello_time'
+    calls = {}
+    for fname, fn in ix.functions.items():
+        for n in walk(fn):
+            if n.get('kind') == 'CallExpr' and n.get('inner'):
+                c = n['inner'][0]
+                while c.get('kind') in ('ImplicitCastExpr', 'ParenExpr'):
+                    c = c['inner'][0]
+                if c.get('kind') == 'DeclRefExpr':
+                    calls.setdefault(fname, set()).add(c.get('referencedDecl', {}).get('name'))
+    reach = {UPD}
+    grew = True
+    while grew:
+        grew = False
+        for f, cs in calls.items():
+            if f not in reach and cs & reach:
+                reach.add(f)
+                grew = True
+    NOW = ('sym', 'clock.ms.0', 1, 1 << 63)
+    num, den = B['TXC'] * 20, 3 * B['GAMMA']
+    off = lambda n: brec.field(n)[1]
+    examined = 0
+    for fname, fn in sorted(ix.functions.items()):
+        if fname in (UPD, CHOOSE, 'automata_tick') or fn_body(fn) is None:
+            continue
+        ps = fn_params(fn)
+        pts = [' '.join(p_['type']['qualType'].replace('struct ', '').replace('const ', '').split()) for p_ in ps]
+        if 'band_state *' not in pts:
+            if fname in reach and fn.get('storageClass') != 'static':
+                # an entry point of another shape from which the update is reachable: the update must be followed, in the
+                # same block of statements, by the re-scheduling call
+                rep.check(followed_by(fn, UPD, CHOOSE), 'R13.7', 'ender|%s|structural' % fname,
+                          '%s reaches band_update_stats (ends an enumeration block) without calling band_choose_hello_time after it: the Hello '
+                          'scheduled under the old count stays in force' % fname, node=fn, function=fname)
+            continue
+        if fn.get('storageClass') == 'static' and fname not in reach:
+            continue
+        examined += 1
+        R = ('sym', 'band.r', 0, (1 << 32) - 1)
+        NI = ('sym', 'band.Ni@entry', B['ALPHA'], B['NMAX'])
+        HT = ('sym', 'band.hello_timeout_ts@entry', 0, 1 << 62)
+        BT = ('sym', 'band.block_timeout_ts@entry', 0, 1 << 62)
+
+        def setup(I, st, fn=fn, pts=pts, ps=ps):
+            o = mk_obj(st, 'in:band', brec.size, kind='heap', default='sym')
+            o.cells[((), off('Ni'))] = (4, NI)
+            o.cells[((), off('r'))] = (4, R)
+            o.cells[((), off('hello_timeout_ts'))] = (8, HT)
+            o.cells[((), off('block_timeout_ts'))] = (8, BT)
+            args = []
+            from .safety import sym_arg
+            for p_, t_ in zip(ps, pts):
+                if t_ == 'band_state *':
+                    args.append(Val(ix.parse_type('band_state *'), ('ptr', 'in:band', ZERO)))
+                else:
+                    args.append(sym_arg(I, st, ix, p_))
+            return args
+
+        def upd(I, s2, args, node, rty):
+            s2.tags = dict(s2.tags)
+            s2.tags['block-ended'] = True
+            ixx, f2 = I.prog.resolve(I.ix, UPD)
+            return I.inline(s2, ixx, f2, args, node, rty)
+        E = Engine(prog, port=PortModel(), summaries={UPD: upd})
+        I, outs = run_entry(prog, AUTOMATA_UNIT, fname, setup, engine=E, name='%s[block end?]' % fname)
+        collect_failures(rep, I, 'R13.ub')
+        ended = 0
+        for s2, v in outs:
+            if not s2.tags.get('block-ended'):
+                continue
+            ended += 1
+            b2 = s2.objs['in:band']
+            ni2 = s2.canon(mem.load_scalar(s2, b2, C(off('Ni')), ix.parse_type('unsigned int')))
+            hts = s2.canon(mem.load_scalar(s2, b2, C(off('hello_timeout_ts')), ix.parse_type('unsigned long long')))
+            ok = s2.prove_le(('mul', C(num), ni2), ('mul', C(den), ('sub', hts, NOW)))
+            rep.check(ok, 'R13.7', 'ender|%s|reschedule' % fname,
+                      '%s ends an enumeration block (band_update_stats runs, count becomes %s) but leaves the next Hello scheduled at %s: not re-computed from the updated '
+                      'count, so it can go out sooner than ceil(%d*Ni/%d) allows' % (fname, short(ni2), short(hts), num, den), node=fn, function=fname)
+        if not ended:
+            rep.ok('R13.7')
+    if examined < 1:
+        rep.broke('only %d RepeatBand functions examined for block ends' % examined)
+    rep.analysed['block_enders_examined'] = examined
+
+
+def followed_by(fn, first, then):
+    """Every call of `first` inside fn is followed, later in the same compound statement, by an unconditional call of `then`."""
+    def calls_in(n, name):
+        for m in walk(n):
+            if m.get('kind') == 'CallExpr' and m.get('inner'):
+                c = m['inner'][0]
+                while c.get('kind') in ('ImplicitCastExpr', 'ParenExpr'):
+                    c = c['inner'][0]
+                if c.get('kind') == 'DeclRefExpr' and c.get('referencedDecl', {}).get('name') == name:
+                    return True
+        return False
+    found = [False]
+    okall = [True]
+
+    def visit(n):
+        if n.get('kind') == 'CompoundStmt':
+            kids = n.get('inner') or []
+            for i, k in enumerate(kids):
+                if k.get('kind') not in ('CompoundStmt', 'IfStmt', 'ForStmt', 'WhileStmt', 'DoStmt', 'SwitchStmt') and calls_in(k, first):
+                    found[0] = True
+                    if not any(kk.get('kind') not in ('IfStmt', 'ForStmt', 'WhileStmt', 'DoStmt', 'SwitchStmt') and calls_in(kk, then) for kk in kids[i + 1:]):
+                        okall[0] = False
+        for k in n.get('inner') or []:
+            if isinstance(k, dict):
+                visit(k)
+    visit(fn)
+    return okall[0]
 
 
 def candidates(st, r, beta):
